@@ -540,7 +540,8 @@ theorem write2_wf (s : S) (bufs : List Nat) (send : Bool) (h : WF s) :
     have hw : s.writable = true := hw
     obtain ⟨hc, hs, hcd, hsc, hsr⟩ := h.open_facts hf hw
     have hclf : ∀ s' : S, ClFrame s s' := fun s' hcl => by rw [hc] at hcl; cases hcl
-    have w2 : WF { s with nextId := s.nextId + 1, wqs := s.wqs + totalOf bufs,
+    have w2 : WF { s with
+        nextId := s.nextId + 1, wqs := s.wqs + totalOf bufs,
         wq := s.wq ++ [{ id := s.nextId, bufs := bufs, send := send, total := totalOf bufs }],
         accepted := s.accepted ++ [s.nextId],
         submitted := s.submitted ++ bytes s.nextId 0 (totalOf bufs) } :=
@@ -566,7 +567,7 @@ theorem write2_wf (s : S) (bufs : List Nat) (send : Bool) (h : WF s) :
         acc_eq := by
           have := h.acc_eq
           simp only [List.map_append, List.map_cons, List.map_nil, List.append_assoc] at this ⊢
-          rw [this]
+          rw [this]; simp only [List.append_assoc]
         acc_lt := by
           refine ⟨List.pairwise_append.2 ⟨h.acc_lt.1, List.pairwise_singleton _ _, ?_⟩, ?_⟩
           · intro a ha b hb
@@ -593,7 +594,8 @@ theorem write2_wf (s : S) (bufs : List Nat) (send : Bool) (h : WF s) :
     · exact ⟨w2, ⟨rfl, rfl, rfl, rfl, id⟩, hclf _⟩
     · split
       · have := writeLoop_wf 32 _ w2 hc
-        have fr := writeLoop_frame 32 { s with nextId := s.nextId + 1, wqs := s.wqs + totalOf bufs,
+        have fr := writeLoop_frame 32 { s with
+          nextId := s.nextId + 1, wqs := s.wqs + totalOf bufs,
           wq := s.wq ++ [{ id := s.nextId, bufs := bufs, send := send, total := totalOf bufs }],
           accepted := s.accepted ++ [s.nextId],
           submitted := s.submitted ++ bytes s.nextId 0 (totalOf bufs) }
@@ -604,5 +606,329 @@ theorem write2_wf (s : S) (bufs : List Nat) (send : Bool) (h : WF s) :
                 closing_ok := (by intro hcl; simp only [] at hcl; rw [hc] at hcl; cases hcl),
                 shut_ok := w2.shut_ok, called_ok := w2.called_ok, req_ok := w2.req_ok, os_ok := w2.os_ok,
                 cbs_ok := w2.cbs_ok, mon_ok := w2.mon_ok, closed_ok := w2.closed_ok }
+
+theorem unsent_wq_zero {s : S} (h : WF s) (hz : s.wqs = 0) : unsent s.wq = 0 := by
+  have := h.wqs_eq
+  simp only [unsent_append] at this
+  omega
+
+theorem tryWrite2_wf (s : S) (bufs : List Nat) (send : Bool) (h : WF s) :
+    WF (tryWrite2 s bufs send).1 ∧ Frame s (tryWrite2 s bufs send).1 ∧
+    ClFrame s (tryWrite2 s bufs send).1 := by
+  unfold tryWrite2
+  simp only []
+  split
+  · exact ⟨h.bump, ⟨rfl, rfl, rfl, rfl, id⟩, fun hc => ⟨hc, rfl, rfl⟩⟩
+  · rename_i hcond
+    have hz : s.wqs = 0 := by
+      cases hcn : s.connecting <;> simp_all
+    by_cases hchk : checkBeforeWrite { s with nextId := s.nextId + 1 } send < 0
+    · simp only [hchk, if_true]
+      exact ⟨h.bump, ⟨rfl, rfl, rfl, rfl, id⟩, fun hc => ⟨hc, rfl, rfl⟩⟩
+    · simp only [hchk, if_false]
+      obtain ⟨hf, hw⟩ := check_ok _ _ hchk
+      have hf : s.fdOpen = true := hf
+      have hw : s.writable = true := hw
+      obtain ⟨hc, hs, hcd, hsc, hsr⟩ := h.open_facts hf hw
+      have hclf : ∀ s' : S, ClFrame s s' := fun s' hcl => by rw [hc] at hcl; cases hcl
+      have hpend : pend s.wq = [] := pend_of_unsent_zero _ (unsent_wq_zero h hz)
+      obtain ⟨k, env', tr, e1, e2, e3⟩ :=
+        tryWriteOnce_spec { s with nextId := s.nextId + 1 } bufs send s.nextId 0
+      simp only [e1]
+      have hb := h.bump
+      split
+      · rename_i hn
+        obtain ⟨ek, _⟩ := e2 hn
+        simp only [ek, Int.toNat_natCast]
+        refine ⟨?_, ⟨rfl, rfl, rfl, rfl, id⟩, hclf _⟩
+        exact {
+          wqs_eq := hb.wqs_eq, wq_ok := hb.wq_ok, sent_ok := hb.sent_ok, done_ok := hb.done_ok,
+          acc_eq := hb.acc_eq, acc_lt := hb.acc_lt,
+          closing_ok := (by intro hcl; simp only [] at hcl; rw [hc] at hcl; cases hcl),
+          shut_ok := (by intro hh; simp only [] at hh; rw [hs] at hh; cases hh),
+          called_ok := hb.called_ok, req_ok := hb.req_ok,
+          os_ok := (by
+            rcases h.os_ok with hh | ⟨rest, hr1, hr2⟩
+            · exact Or.inl hh
+            · right
+              have hr := hr2 hc
+              rw [hpend] at hr
+              refine ⟨[], ?_, fun _ => hpend.symm⟩
+              simp only [hr1, hr, List.append_nil]),
+          cbs_ok := hb.cbs_ok,
+          mon_ok := (by
+            refine ⟨h.mon_ok.1, h.mon_ok.2.1, h.mon_ok.2.2.1, ?_⟩
+            intro p hp
+            simp only [] at hp
+            split at hp
+            · rcases List.mem_cons.1 hp with hp | hp
+              · rw [hp]
+              · exact h.mon_ok.2.2.2 p hp
+            · exact h.mon_ok.2.2.2 p hp),
+          closed_ok := hb.closed_ok }
+      · rename_i hn
+        have hk0 : k = 0 := e3 (by omega)
+        subst hk0
+        simp only [bytes_zero, List.append_nil]
+        split
+        · refine ⟨?_, ⟨rfl, rfl, rfl, rfl, id⟩, hclf _⟩
+          exact {
+            wqs_eq := hb.wqs_eq, wq_ok := hb.wq_ok, sent_ok := hb.sent_ok, done_ok := hb.done_ok,
+            acc_eq := hb.acc_eq, acc_lt := hb.acc_lt, closing_ok := hb.closing_ok, shut_ok := hb.shut_ok,
+            called_ok := hb.called_ok, req_ok := hb.req_ok, os_ok := hb.os_ok, cbs_ok := hb.cbs_ok,
+            mon_ok := hb.mon_ok, closed_ok := hb.closed_ok }
+        · refine ⟨?_, ⟨rfl, rfl, rfl, rfl, fun _ => rfl⟩, hclf _⟩
+          exact {
+            wqs_eq := hb.wqs_eq, wq_ok := hb.wq_ok, sent_ok := hb.sent_ok, done_ok := hb.done_ok,
+            acc_eq := hb.acc_eq, acc_lt := hb.acc_lt, closing_ok := hb.closing_ok, shut_ok := hb.shut_ok,
+            called_ok := hb.called_ok, req_ok := hb.req_ok, os_ok := Or.inl rfl, cbs_ok := hb.cbs_ok,
+            mon_ok := hb.mon_ok, closed_ok := hb.closed_ok }
+
+theorem shutdownOp_wf (s : S) (h : WF s) :
+    WF (shutdownOp s).1 ∧ Frame s (shutdownOp s).1 ∧ ClFrame s (shutdownOp s).1 := by
+  unfold shutdownOp
+  split
+  · exact ⟨h, Frame.refl s, fun hc => ⟨hc, rfl, rfl⟩⟩
+  · rename_i hcond
+    have hc : s.closing = false := by cases hx : s.closing <;> simp_all
+    have hs : s.shut = false := by cases hx : s.shut <;> simp_all
+    have hcd : s.closed = false := by
+      cases hx : s.closed with
+      | false => rfl
+      | true => have := (h.closed_ok hx).1; rw [hc] at this; cases this
+    refine ⟨?_, ⟨rfl, rfl, rfl, rfl, id⟩, fun hcl => by rw [hc] at hcl; cases hcl⟩
+    exact {
+      wqs_eq := h.wqs_eq, wq_ok := h.wq_ok, sent_ok := h.sent_ok, done_ok := h.done_ok,
+      acc_eq := h.acc_eq, acc_lt := h.acc_lt,
+      closing_ok := (by intro hcl; simp only [] at hcl; rw [hc] at hcl; cases hcl),
+      shut_ok := (by intro hh; simp only [] at hh; rw [hs] at hh; cases hh),
+      called_ok := fun _ => rfl, req_ok := fun _ => rfl, os_ok := h.os_ok, cbs_ok := h.cbs_ok,
+      mon_ok := h.mon_ok,
+      closed_ok := (by intro hh; simp only [] at hh; rw [hcd] at hh; cases hh) }
+
+theorem closeOp_wf (s : S) (h : WF s) :
+    WF (closeOp s).1 ∧ Frame s (closeOp s).1 ∧ ClFrame s (closeOp s).1 := by
+  unfold closeOp
+  split
+  · exact ⟨h, Frame.refl s, fun hc => ⟨hc, rfl, rfl⟩⟩
+  · rename_i hcond
+    have hc : s.closing = false := by cases hx : s.closing <;> simp_all
+    have hcd : s.closed = false := by
+      cases hx : s.closed with
+      | false => rfl
+      | true => have := (h.closed_ok hx).1; rw [hc] at this; cases this
+    refine ⟨?_, ⟨rfl, rfl, rfl, rfl, id⟩, fun _ => ⟨rfl, rfl, rfl⟩⟩
+    exact {
+      wqs_eq := h.wqs_eq, wq_ok := h.wq_ok, sent_ok := h.sent_ok, done_ok := h.done_ok,
+      acc_eq := h.acc_eq, acc_lt := h.acc_lt,
+      closing_ok := fun _ => ⟨rfl, rfl, rfl, rfl⟩,
+      shut_ok := fun hh => ⟨(h.shut_ok hh).1, (h.shut_ok hh).2.1, rfl⟩,
+      called_ok := fun _ => rfl, req_ok := fun _ => rfl,
+      os_ok := (by
+        rcases h.os_ok with hh | ⟨rest, hr1, _⟩
+        · exact Or.inl hh
+        · exact Or.inr ⟨rest, hr1, fun hx => by cases hx⟩),
+      cbs_ok := h.cbs_ok, mon_ok := h.mon_ok,
+      closed_ok := (by intro hh; simp only [] at hh; rw [hcd] at hh; cases hh) }
+
+theorem WF.emit {s : S} (h : WF s) (e : Ev) : WF (emit s e) :=
+  { wqs_eq := h.wqs_eq, wq_ok := h.wq_ok, sent_ok := h.sent_ok, done_ok := h.done_ok,
+    acc_eq := h.acc_eq, acc_lt := h.acc_lt, closing_ok := h.closing_ok, shut_ok := h.shut_ok,
+    called_ok := h.called_ok, req_ok := h.req_ok, os_ok := h.os_ok, cbs_ok := h.cbs_ok,
+    mon_ok := h.mon_ok, closed_ok := h.closed_ok }
+
+theorem apiOp_wf (s : S) (o : Op) (h : WF s) :
+    WF (apiOp s o) ∧ Frame s (apiOp s o) ∧ ClFrame s (apiOp s o) := by
+  have key : ∀ (r : S × Int), WF r.1 → Frame s r.1 → ClFrame s r.1 →
+      WF (UvModel.StreamW.emit
+        { UvModel.StreamW.emit r.1 (.ret r.2) with
+          obsBad := (UvModel.StreamW.emit r.1 (.ret r.2)).obsBad ||
+            ((UvModel.StreamW.emit r.1 (.ret r.2)).wqs !=
+              ((unsent ((UvModel.StreamW.emit r.1 (.ret r.2)).pq ++ (UvModel.StreamW.emit r.1 (.ret r.2)).cq ++
+                (UvModel.StreamW.emit r.1 (.ret r.2)).wq) : Nat) : Int)) }
+        (.obs (UvModel.StreamW.emit r.1 (.ret r.2)).wqs
+          (unsent ((UvModel.StreamW.emit r.1 (.ret r.2)).pq ++ (UvModel.StreamW.emit r.1 (.ret r.2)).cq ++
+            (UvModel.StreamW.emit r.1 (.ret r.2)).wq)))) ∧
+      Frame s (UvModel.StreamW.emit
+        { UvModel.StreamW.emit r.1 (.ret r.2) with
+          obsBad := (UvModel.StreamW.emit r.1 (.ret r.2)).obsBad ||
+            ((UvModel.StreamW.emit r.1 (.ret r.2)).wqs !=
+              ((unsent ((UvModel.StreamW.emit r.1 (.ret r.2)).pq ++ (UvModel.StreamW.emit r.1 (.ret r.2)).cq ++
+                (UvModel.StreamW.emit r.1 (.ret r.2)).wq) : Nat) : Int)) }
+        (.obs (UvModel.StreamW.emit r.1 (.ret r.2)).wqs
+          (unsent ((UvModel.StreamW.emit r.1 (.ret r.2)).pq ++ (UvModel.StreamW.emit r.1 (.ret r.2)).cq ++
+            (UvModel.StreamW.emit r.1 (.ret r.2)).wq)))) ∧
+      ClFrame s (UvModel.StreamW.emit
+        { UvModel.StreamW.emit r.1 (.ret r.2) with
+          obsBad := (UvModel.StreamW.emit r.1 (.ret r.2)).obsBad ||
+            ((UvModel.StreamW.emit r.1 (.ret r.2)).wqs !=
+              ((unsent ((UvModel.StreamW.emit r.1 (.ret r.2)).pq ++ (UvModel.StreamW.emit r.1 (.ret r.2)).cq ++
+                (UvModel.StreamW.emit r.1 (.ret r.2)).wq) : Nat) : Int)) }
+        (.obs (UvModel.StreamW.emit r.1 (.ret r.2)).wqs
+          (unsent ((UvModel.StreamW.emit r.1 (.ret r.2)).pq ++ (UvModel.StreamW.emit r.1 (.ret r.2)).cq ++
+            (UvModel.StreamW.emit r.1 (.ret r.2)).wq)))) := by
+    intro r hw hfr hcl
+    refine ⟨?_, ⟨hfr.pq, hfr.cbs, hfr.connErr, hfr.closed, hfr.hard⟩, hcl⟩
+    exact {
+      wqs_eq := hw.wqs_eq, wq_ok := hw.wq_ok, sent_ok := hw.sent_ok, done_ok := hw.done_ok,
+      acc_eq := hw.acc_eq, acc_lt := hw.acc_lt, closing_ok := hw.closing_ok, shut_ok := hw.shut_ok,
+      called_ok := hw.called_ok, req_ok := hw.req_ok, os_ok := hw.os_ok, cbs_ok := hw.cbs_ok,
+      mon_ok := (by
+        refine ⟨?_, hw.mon_ok.2.1, hw.mon_ok.2.2.1, hw.mon_ok.2.2.2⟩
+        have h1 := hw.mon_ok.1
+        have h2 := hw.wqs_eq
+        simp only [UvModel.StreamW.emit, h1, Bool.false_or, bne_eq_false_iff_eq]
+        exact h2),
+      closed_ok := hw.closed_ok }
+  cases o with
+  | write bufs send => obtain ⟨a, b, c⟩ := write2_wf s bufs send h; exact key _ a b c
+  | tryWrite bufs send => obtain ⟨a, b, c⟩ := tryWrite2_wf s bufs send h; exact key _ a b c
+  | shutdown => obtain ⟨a, b, c⟩ := shutdownOp_wf s h; exact key _ a b c
+  | close => obtain ⟨a, b, c⟩ := closeOp_wf s h; exact key _ a b c
+
+/-! ### callbacks, drain, stream_io, destroy -/
+
+theorem ClFrame.trans {a b c : S} (h1 : ClFrame a b) (h2 : ClFrame b c) : ClFrame a c := by
+  intro ha
+  obtain ⟨b1, b2, b3⟩ := h1 ha
+  obtain ⟨c1, c2, c3⟩ := h2 b1
+  exact ⟨c1, c2.trans b2, c3.trans b3⟩
+
+theorem fold_api_wf (ops : List Op) : ∀ s : S, WF s →
+    WF (ops.foldl apiOp s) ∧ Frame s (ops.foldl apiOp s) ∧ ClFrame s (ops.foldl apiOp s) := by
+  induction ops with
+  | nil => intro s h; exact ⟨h, Frame.refl s, fun hc => ⟨hc, rfl, rfl⟩⟩
+  | cons o ops ih =>
+    intro s h
+    obtain ⟨a, b, c⟩ := apiOp_wf s o h
+    obtain ⟨a', b', c'⟩ := ih _ a
+    exact ⟨a', b.trans b', c.trans c'⟩
+
+theorem WF.ncb {s : S} (h : WF s) (n : Nat) : WF { s with ncb := n } :=
+  { wqs_eq := h.wqs_eq, wq_ok := h.wq_ok, sent_ok := h.sent_ok, done_ok := h.done_ok,
+    acc_eq := h.acc_eq, acc_lt := h.acc_lt, closing_ok := h.closing_ok, shut_ok := h.shut_ok,
+    called_ok := h.called_ok, req_ok := h.req_ok, os_ok := h.os_ok, cbs_ok := h.cbs_ok,
+    mon_ok := h.mon_ok, closed_ok := h.closed_ok }
+
+theorem userCb_wf (sc : Script) (s : S) (h : WF s) :
+    WF (userCb sc s) ∧ Frame s (userCb sc s) ∧ ClFrame s (userCb sc s) := by
+  unfold userCb
+  obtain ⟨a, b, c⟩ := fold_api_wf (sc s.ncb) { s with ncb := s.ncb + 1 } (h.ncb _)
+  exact ⟨a, ⟨b.pq, b.cbs, b.connErr, b.closed, b.hard⟩, c⟩
+
+/-- a callback with an event in front -/
+theorem userCb_emit_wf (sc : Script) (s : S) (e : Ev) (h : WF s) :
+    WF (userCb sc (emit s e)) ∧ Frame s (userCb sc (emit s e)) ∧ ClFrame s (userCb sc (emit s e)) := by
+  obtain ⟨a, b, c⟩ := userCb_wf sc (emit s e) (h.emit e)
+  exact ⟨a, ⟨b.pq, b.cbs, b.connErr, b.closed, b.hard⟩, c⟩
+
+theorem cbOne_wf (sc : Script) (s : S) (r : Req) (rest : List Req) (h : WF s) (hp : s.pq = r :: rest) :
+    WF (cbOne sc r { s with pq := rest }) ∧ (cbOne sc r { s with pq := rest }).pq = rest ∧
+    (cbOne sc r { s with pq := rest }).connErr = s.connErr ∧
+    (cbOne sc r { s with pq := rest }).closed = s.closed ∧
+    (s.hardErr = true → (cbOne sc r { s with pq := rest }).hardErr = true) ∧
+    ClFrame s (cbOne sc r { s with pq := rest }) ∧
+    (cbOne sc r { s with pq := rest }).cbs = s.cbs ++ [⟨r.id, r.error, r.sent, r.total⟩] := by
+  have hd := h.done_ok r (by rw [hp]; simp)
+  have hs := h.sent_ok r (by rw [hp]; simp)
+  have w : WF { s with pq := rest, wqs := if !r.freed then s.wqs - rem r else s.wqs,
+                       cbs := s.cbs ++ [⟨r.id, r.error, r.sent, r.total⟩] } :=
+    { wqs_eq := (by
+        have := h.wqs_eq
+        rw [hp] at this
+        simp only [unsent_append, unsent_cons] at this ⊢
+        cases hf : r.freed
+        · simp only [Bool.not_false, if_true]; omega
+        · have := hd.1 hf
+          simp only [Bool.not_true, Bool.false_eq_true, if_false]; omega),
+      wq_ok := h.wq_ok,
+      sent_ok := (fun x hx => h.sent_ok x (by
+        rw [hp]; simp only [List.mem_append, List.mem_cons] at hx ⊢
+        rcases hx with (hx | hx) | hx
+        · exact Or.inl (Or.inl (Or.inr hx))
+        · exact Or.inl (Or.inr hx)
+        · exact Or.inr hx)),
+      done_ok := (fun x hx => h.done_ok x (by
+        rw [hp]; simp only [List.mem_append, List.mem_cons] at hx ⊢
+        rcases hx with hx | hx
+        · exact Or.inl (Or.inr hx)
+        · exact Or.inr hx)),
+      acc_eq := (by
+        have := h.acc_eq
+        rw [hp] at this
+        rw [this]; simp),
+      acc_lt := h.acc_lt, closing_ok := h.closing_ok, shut_ok := h.shut_ok,
+      called_ok := h.called_ok, req_ok := h.req_ok, os_ok := h.os_ok,
+      cbs_ok := (by
+        intro c hc
+        rcases List.mem_append.1 hc with hc | hc
+        · exact h.cbs_ok c hc
+        · rw [List.mem_singleton.1 hc]
+          intro he
+          have he : r.error = 0 := he
+          have := hd.1 (hd.2 he)
+          show r.sent = r.total
+          omega),
+      mon_ok := h.mon_ok, closed_ok := h.closed_ok }
+  obtain ⟨a, b, c⟩ := userCb_emit_wf sc _ (.cb r.id r.error) w
+  unfold cbOne
+  exact ⟨a, b.pq, b.connErr, b.closed, b.hard, c, b.cbs⟩
+
+theorem cbLoop_wf (sc : Script) : ∀ (l : List Req) (s : S), WF s → s.pq = l →
+    WF (cbLoop sc l s) ∧ (cbLoop sc l s).pq = [] ∧ (cbLoop sc l s).connErr = s.connErr ∧
+    (cbLoop sc l s).closed = s.closed ∧ (s.hardErr = true → (cbLoop sc l s).hardErr = true) ∧
+    ClFrame s (cbLoop sc l s) ∧
+    (cbLoop sc l s).cbs = s.cbs ++ l.map (fun r => ⟨r.id, r.error, r.sent, r.total⟩) := by
+  intro l
+  induction l with
+  | nil =>
+    intro s h hp
+    exact ⟨h, hp, rfl, rfl, id, fun hc => ⟨hc, rfl, rfl⟩, by simp [cbLoop]⟩
+  | cons r rest ih =>
+    intro s h hp
+    obtain ⟨a1, a2, a3, a4, a5, a6, a7⟩ := cbOne_wf sc s r rest h hp
+    obtain ⟨b1, b2, b3, b4, b5, b6, b7⟩ := ih _ a1 a2
+    unfold cbLoop
+    refine ⟨b1, b2, b3.trans a3, b4.trans a4, fun hh => b5 (a5 hh), a6.trans b6, ?_⟩
+    rw [b7, a7]; simp
+
+theorem writeCallbacks_wf (sc : Script) (s : S) (h : WF s) (hp : s.pq = []) :
+    WF (writeCallbacks sc s) ∧ (writeCallbacks sc s).pq = [] ∧
+    (writeCallbacks sc s).connErr = s.connErr ∧ (writeCallbacks sc s).closed = s.closed ∧
+    (s.hardErr = true → (writeCallbacks sc s).hardErr = true) ∧
+    (s.closing = true → (writeCallbacks sc s).closing = true ∧ (writeCallbacks sc s).cq = [] ∧
+      (writeCallbacks sc s).wq = s.wq) ∧
+    (s.closing = false → s.cq = [] → writeCallbacks sc s = s) ∧
+    (writeCallbacks sc s).cbs = s.cbs ++ s.cq.map (fun r => ⟨r.id, r.error, r.sent, r.total⟩) := by
+  unfold writeCallbacks
+  cases hcq : s.cq with
+  | nil =>
+    simp only [List.isEmpty_nil, if_true]
+    exact ⟨h, hp, rfl, rfl, id, fun hc => ⟨hc, hcq, rfl⟩, fun _ _ => rfl, by simp⟩
+  | cons r rest =>
+    simp only [List.isEmpty_cons, Bool.false_eq_true, if_false]
+    have w : WF { s with pq := r :: rest, cq := [] } :=
+      { wqs_eq := (by
+          have := h.wqs_eq
+          rw [hp, hcq] at this
+          simpa using this),
+        wq_ok := h.wq_ok,
+        sent_ok := (fun x hx => h.sent_ok x (by
+          rw [hp, hcq]; simpa using hx)),
+        done_ok := (fun x hx => h.done_ok x (by
+          rw [hp, hcq]; simpa using hx)),
+        acc_eq := (by
+          have := h.acc_eq
+          rw [hp, hcq] at this
+          simpa using this),
+        acc_lt := h.acc_lt, closing_ok := h.closing_ok, shut_ok := h.shut_ok,
+        called_ok := h.called_ok, req_ok := h.req_ok, os_ok := h.os_ok, cbs_ok := h.cbs_ok,
+        mon_ok := h.mon_ok,
+        closed_ok := (by
+          intro hh
+          have := (h.closed_ok hh).2.2
+          rw [hcq] at this; cases this) }
+    obtain ⟨b1, b2, b3, b4, b5, b6, b7⟩ := cbLoop_wf sc (r :: rest) _ w rfl
+    exact ⟨b1, b2, b3, b4, b5, fun hc => b6 hc, fun _ hx => by cases hx, b7⟩
 
 end UvModel.StreamW
